@@ -149,13 +149,17 @@ def write_evidence(pid, tier, seed, coverage, assumptions, wall, violations, lev
         f.write("\n")
 
 
-def ddmin(items, test):
-    """Delta debugging: smallest sublist (order kept) for which test(sublist) is True."""
+def ddmin(items, test, budget_s=90):
+    """Delta debugging: smallest sublist (order kept) for which test(sublist) is True;
+    gives up shrinking further when the time budget is used."""
     n = 2
-    while len(items) >= 2:
+    t_end = time.time() + budget_s
+    while len(items) >= 2 and time.time() < t_end:
         chunk = max(1, len(items) // n)
         reduced = False
         for i in range(0, len(items), chunk):
+            if time.time() > t_end:
+                break
             cand = items[:i] + items[i + chunk:]
             if cand and test(cand):
                 items = cand
@@ -218,8 +222,13 @@ class SeqCheck:
     def extra_build(self):
         return True
 
-    def run_harness(self, args, out):
-        cmd = [os.path.join(BIN, self.hbin)] + args + ["-out", out]
+    def variants(self):
+        """list of (binary name, extra harness args); every variant runs corpus and generated histories"""
+        return [(self.hbin, [])]
+
+    def run_harness(self, args, out, variant=None):
+        hbin, extra = variant or self.variants()[0]
+        cmd = [os.path.join(BIN, hbin)] + extra + args + ["-out", out]
         r = sh(cmd, env=dict(os.environ, **self.harness_env()))
         if r.returncode != 0:
             log("harness failed:", " ".join(cmd))
@@ -231,19 +240,36 @@ class SeqCheck:
         return {}
 
     # --- flow -------------------------------------------------------------------------
+    overlay = None        # dict: path under /repo -> path under /verif/harness/overlay
+    diff_is_violation = False
+
+    def overlay_file(self):
+        if not self.overlay:
+            return None
+        os.makedirs(os.path.join(WORK, self.pid), exist_ok=True)
+        path = os.path.join(WORK, self.pid, "overlay.json")
+        rep = {os.path.join(REPO, k): os.path.join(VERIF, "harness", "overlay", v) for k, v in self.overlay.items()}
+        json.dump({"Replace": rep}, open(path, "w"))
+        return path
+
     def build(self):
         os.makedirs(BIN, exist_ok=True)
         return go_build(os.path.join(VERIF, "harness", self.harness), os.path.join(BIN, self.hbin),
-                        tags=self.build_tags) and self.extra_build()
+                        tags="verif" if self.overlay else self.build_tags,
+                        overlay=self.overlay_file()) and self.extra_build()
 
     def evaluate(self, lines):
         """lines: 'conf # ops # obs' from the implementation. Returns per-line
         (model_equal, codes list)."""
-        reqs = []
-        for l in lines:
+        reqs = {}
+        order = []
+        for i, l in enumerate(lines):
             c, o, _ = split3(l)
-            reqs.append(c + " # " + o)
-        model = modelrun(self.model_entry, reqs, self.stack_unlimited)
+            e = self.model_entry_for(c)
+            reqs.setdefault(e, []).append(c + " # " + o)
+            order.append((e, len(reqs[e]) - 1))
+        answers = {e: modelrun(e, r, self.stack_unlimited) for e, r in reqs.items()}
+        model = [answers[e][k] for (e, k) in order]
         codes = [None] * len(lines)
         if self.oracle_entry:
             ans = modelrun(self.oracle_entry, lines, self.stack_unlimited)
@@ -332,17 +358,20 @@ class SeqCheck:
             if os.path.isdir(cdir):
                 inputs = sorted(os.path.join(cdir, f) for f in os.listdir(cdir) if f.endswith(".hist"))
         for i, f in enumerate(inputs):
-            out = os.path.join(wd, "corpus%d.out" % i)
-            if self.run_harness(["-replay", f], out):
-                files.append(out)
+            for vi, var in enumerate(self.variants()):
+                out = os.path.join(wd, "corpus%d_%d.out" % (i, vi))
+                if self.run_harness(["-replay", f], out, var):
+                    files.append(out)
         n = 0
         if not a.replay:
             n = self.thorough_n if tier == "thorough" else self.quick_n
             procs = []
             per = (n + self.shards - 1) // self.shards
+            vs = self.variants()
             for s in range(self.shards):
                 out = os.path.join(wd, "gen%d.out" % s)
-                cmd = [os.path.join(BIN, self.hbin), "-seed", str(seed * 1000 + s), "-n", str(per), "-out", out] + self.gen_args(tier)
+                hbin, extra = vs[s % len(vs)]
+                cmd = [os.path.join(BIN, hbin)] + extra + ["-seed", str(seed * 1000 + s), "-n", str(per), "-out", out] + self.gen_args(tier)
                 procs.append((subprocess.Popen(cmd, stdout=subprocess.PIPE, stderr=subprocess.STDOUT, text=True,
                                                env=dict(os.environ, **self.harness_env())), out, cmd))
             for p, out, cmd in procs:
@@ -364,13 +393,16 @@ class SeqCheck:
         diffs = []
         flagged = []
         ops_total = 0
-        for f in files:
+        from concurrent.futures import ThreadPoolExecutor
+
+        def eval_file(f):
             lines = [l for l in open(f).read().split("\n") if l.strip()]
+            return f, lines, (self.evaluate(lines) if lines else [])
+        with ThreadPoolExecutor(max_workers=12) as ex:
+            evaluated = list(ex.map(eval_file, files))
+        for f, lines, res in evaluated:
             for k, v in read_tags(f + ".tags").items():
                 tags[k] = tags.get(k, 0) + v
-            if not lines:
-                continue
-            res = self.evaluate(lines)
             for l, (eq, codes, mobs) in zip(lines, res):
                 total += 1
                 c, o, ob = split3(l)
@@ -418,6 +450,21 @@ class SeqCheck:
                 f.write(small + "\n")
             violations.append(("spec", "oracle code %d" % code0, rp, False))
 
+        # components whose theorem pins the answers uniquely (model answer = the only answer the
+        # property allows on generated inputs): a difference is itself a failing input
+        if diffs and self.diff_is_violation and not any(v[0] == "spec" for v in violations):
+            l, mobs = diffs[0]
+            small = self.shrink(l, lambda r, ln: not r[0])
+            sres = self.evaluate([small])[0]
+            d = self.first_diff(small, sres[2])
+            rp = os.path.join(VERIF, "replays", "%s-%d-1.hist" % (pid, seed))
+            with open(rp, "w") as f:
+                f.write("// %s: the implementation's answer differs from the only answer the property allows (the Coq model's, proved to meet the Spec)\n" % pid)
+                f.write("// first difference at operation %s: implementation %s, required %s\n" % (d or ("?", "?", "?")))
+                f.write("// %d of %d histories differ; replay: ./check %s --replay %s\n" % (len(diffs), total, pid, rp))
+                f.write(small + "\n")
+            violations.append(("spec", "answer differs from the proved model", rp, False))
+
         # broken correspondence without a Spec violation found
         if diffs and not any(v[0] == "spec" for v in violations) and self.diff_is_mine(pid, diffs):
             l, mobs = diffs[0]
@@ -448,6 +495,9 @@ class SeqCheck:
 
     def diff_is_mine(self, pid, diffs):
         return True
+
+    def model_entry_for(self, conf):
+        return self.model_entry
 
     def corpus_dir(self):
         return self.harness
